@@ -114,6 +114,22 @@ CHECKS["C10"] = dict(
          "Prefix enumeration is complete per sampled input, token damage is capped per input in the quick tier; inputs are sampled. Time "
          "proportionality is judged as 'within the step / 10 s watchdog budget for inputs < 2 KiB'.")
 
+CHECKS["C17"] = dict(
+    level="fault_enumeration", design="DESIGN.md §3 C17",
+    technique=TECH + ": archive images written by an independent packer are truncated at every length and corrupted at every header byte / length field before the real reader opens them through three paths; packed-bytes oracle, crash/hang/allocation/file-change monitors",
+    text="An independent packer (written from the format, not from pbofile.hpp) builds archives from seeded file sets (0-8 entries, "
+         "sub-folder names with backslashes, sizes 0..2 KiB incl. empty, binary content, properties incl. prefix, optional checksum "
+         "trailer). Per archive the simulator writes: the intact image, EVERY truncation length, four byte values at every header byte, "
+         "eight values at every length field, removed NUL terminators, and no file at all. Each image is opened through "
+         "rvutils::pbo::pbofile::open, through impl_default::add_pbo_mapping + reads of every entry under the prefix (slash and "
+         "backslash spellings), and through the CLI's --input-pbo. Judged: intact archive - properties, entry list and every entry's "
+         "bytes exactly as packed, through all paths; damaged archive - refused, or every exposed entry byte-identical to the packed entry "
+         "of that name; always - no crash, hang or escaping exception, largest single allocation <= 1 MiB + 16 x file size, directory "
+         "listing and content hashes of the scratch directory unchanged.",
+    note="Truncations and header damage are enumerated completely per sampled archive (capped per archive in the quick tier); archives "
+         "are sampled. Five known findings (damage inside the entry table that still fits the file is undetectable without verifying the "
+         "SHA-1 trailer) are listed in KNOWN_FINDINGS.txt and matched by (fault kind, region, claims-fit, symptom).")
+
 NOT_APPLICABLE = {
     "C01": "pure function of source text and operator registry; a compile is one atomic instruction, so there is no schedule, clock, fault or carried state to simulate",
     "C06": "str/literal/pretty-printer round trips are pure functions of one value or text; nothing to simulate",
